@@ -46,6 +46,23 @@ Proof.
     cbn [arg_frag]. destruct (frag_fexpr pv sv bound fl k sc a) as [K'|]; [|discriminate Ha]. exists K'. split; [reflexivity | exact Ha].
 Qed.
 
+Lemma frag_fexpr_ok k sc a K : frag_fexpr pv sv bound fl k sc a = Some K -> arg_ok pv sv bound fl k sc a.
+Proof. intros H. right. exists K. exact H. Qed.
+
+Lemma frag_fexpr_call k sc f fsp args sp :
+  frag_fexpr pv sv bound fl (S k) sc (Resolved.ECall (ERead f fsp) args sp) =
+  if f =? pv then None
+  else match fun_kind fl f with
+       | Some (KF ks (KF a r)) => if frag_args pv sv bound fl k sc ks args then Some (KF a r) else None
+       | _ => None
+       end.
+Proof.
+  cbn [frag_fexpr]. destruct (f =? pv); [reflexivity|]. destruct (fun_kind fl f) as [[|ks [|ka kr]]|]; try reflexivity.
+  match goal with |- (if ?x then _ else _) = (if ?y then _ else _) => replace x with y; [reflexivity|] end.
+  revert args. induction ks as [|K ks IH]; intros [|a args]; try reflexivity.
+  destruct K; cbn [frag_args]; rewrite IH; reflexivity.
+Qed.
+
 Lemma arg_frag_ok k sc K a : arg_frag k sc K a -> arg_ok pv sv bound fl k sc a.
 Proof.
   destruct K; cbn [arg_frag]; [intros H; left; exact H|]. intros (K' & H & _). eapply frag_fexpr_ok. exact H.
@@ -92,10 +109,10 @@ Lemma rel_fscope W sc e st E stL : rel pv sv bound u fl W sc e st E stL -> fscop
 Proof. intros [H _]. exact H. Qed.
 
 (* ---- one argument ---- *)
-Lemma arg_sim n g : (forall W, P_eval pv sv bound u fl W n) ->
+Lemma arg_sim n g : (forall W, P_eval pv sv bound u fl W n) -> (forall W, P_farg pv sv bound u fl W n) ->
   forall W K a k ctx c code_a va c1 e st r st1 sc l E stL F,
     arg_frag k sc K a ->
-    SyltSem.eval n e a st = (r, st1) -> expression (S g) a ctx c = Ok ((code_a, va), c1) ->
+    SyltSem.eval n e a st = (r, st1) -> expression g a ctx c = Ok ((code_a, va), c1) ->
     ucovers u code_a -> 1 <= count_of u va -> ctx_ok l F E c c1 -> rel pv sv bound u fl W sc e st E stL -> interesting r ->
     exists b l', cshape u l code_a b l' c c1 /\ c <= va /\ va < c1 /\
       match r with
@@ -105,73 +122,15 @@ Lemma arg_sim n g : (forall W, P_eval pv sv bound u fl W n) ->
       | _ => exit_post pv sv bound u fl W ctx sc e c c1 E stL b r st1
       end.
 Proof.
-  intros IHall W K a k ctx c code_a va c1 e st r st1 sc l E stL F Hfa Hev Hlow Hu Hcva Hctx Hrel Hint.
+  intros IHall IHF W K a k ctx c code_a va c1 e st r st1 sc l E stL F Hfa Hev Hlow Hu Hcva Hctx Hrel Hint.
   destruct K; cbn [arg_frag] in Hfa.
   - (* a plain expression *)
-    destruct (IHall W (S g) k a ctx c code_a va c1 e st r st1 sc l E stL F Hev Hlow Hfa Hu Hctx Hrel Hint) as (b & l' & Hs & H1 & H2 & Hp).
+    destruct (IHall W g k a ctx c code_a va c1 e st r st1 sc l E stL F Hev Hlow Hfa Hu Hctx Hrel Hint) as (b & l' & Hs & H1 & H2 & Hp).
     exists b, l'. split; [exact Hs|]. split; [exact H1|]. split; [exact H2|].
     destruct r as [y|o|cc]; [|exact Hp | exact Hp]. cbn [eval_post] in Hp. destruct Hp as (E' & stL' & F' & Hok & Hd).
     exists W, E', stL', F'. split; [apply wsub_refl|]. split; [exact Hok|]. split; [apply Hok | exact (Hd Hcva)].
   - destruct Hfa as (K' & Hf & Hk). apply kind_eqb_eq in Hk. subst K'.
-    destruct k as [|k0]; [discriminate Hf|].
-    destruct a; try discriminate Hf; cbn [frag_fexpr] in Hf.
-    + (* the name of a function *)
-      destruct (fun_kind fl var) as [Kf|] eqn:Hfk; [|discriminate Hf]. destruct Kf; [discriminate Hf|]. inversion Hf; subst. clear Hf.
-      apply fun_kind_in in Hfk.
-      destruct (r_fund _ _ _ _ _ _ _ _ _ _ _ var _ Hrel Hfk) as (cf & pf & d & Hlkf & Hnthf & Hpf & Hcellf & Hd & Hdk).
-      assert (Hvarb : var < bound).
-      { destruct (r_flb _ _ _ _ _ _ _ _ _ _ _ Hrel var); [|assumption]. unfold fnames. apply in_map_iff. eexists. split; [|exact Hfk]. reflexivity. }
-      cbn [expression] in Hlow. mon Hlow. fresh_all. inj_code.
-      destruct n as [|n']; [cbn in Hev; inversion Hev; subst; destruct Hint|].
-      cbn [SyltSem.eval] in Hev. rewrite Hlkf in Hev. unfold SyltSem.read_cell in Hev. rewrite Hnthf in Hev. inversion Hev; subst r st1. clear Hev.
-      destruct (step_copy_fun pv sv bound u fl W sc e st F c (c + 1) E stL l c var pf (fd_fid d) Hrel Hctx ltac:(lia) Hcva Hvarb Hpf Hcellf) as (E1 & stL1 & F1 & Hok1 & Hdf).
-      eexists _, _. split; [apply cshape_plain; [lia | reflexivity | reflexivity | apply used_plain]|].
-      split; [lia|]. split; [lia|].
-      exists W, E1, stL1, F1. split; [apply wsub_refl|]. split; [exact Hok1|]. split; [apply Hok1|]. cbn [adenotes]. exists d. auto.
-    + (* a lambda *)
-      match type of Hf with (if ?b then _ else _) = _ => destruct b eqn:Hc; [|discriminate Hf] end.
-      inversion Hf; subst. clear Hf.
-      apply andb_prop in Hc as [Hpok Hfb].
-      set (ps := param_ids params) in *. set (ks := param_kinds params) in *.
-      match type of Hfb with is_some ?x = true => destruct x as [scout|] eqn:Hfbody; [|discriminate Hfb] end.
-      assert (Hlks : length ks = length ps) by (unfold ks, ps, param_kinds, param_ids; rewrite !map_length; reflexivity).
-      cbn [expression] in Hlow. fold ps in Hlow. mon Hlow. fresh_all. inj_code. rename a0 into bc.
-      destruct n as [|n']; [cbn in Hev; inversion Hev; subst; destruct Hint|].
-      cbn [SyltSem.eval] in Hev. fold (param_ids params) in Hev. fold ps in Hev. cbn in Hev. inversion Hev; subst r st1. clear Hev.
-      pose proof Hctx as [Hbc Hlut HFo HEf].
-      apply ucovers_cons in Hu as [_ Hu]. apply ucovers_app in Hu as [Hubc _].
-      destruct (L_fb_all pv sv bound u _ g k0 body ctx (c + 1) bc c1 _ scout l Hm0 Hfbody) as (bb & l1 & Hsb).
-      pose proof Hsb as (Hemb & Hcc1 & Hfr1 & Hnlb).
-      assert (Hlut1 : lut_ok bound l (c + 1) c1) by (eapply lut_ok_sub; [exact Hlut | lia | lia]).
-      assert (HEf1 : E_free E (c + 1) c1) by (eapply E_free_sub; [exact HEf | lia | lia]).
-      pose proof (rel_define_lambda pv sv bound u fl W sc e st E stL c ps ks body g k0 scout bc ctx (c + 1) c1 l
-                    Hrel Hpok Hlks Hfbody Hm0 Hubc Hbc ltac:(lia) Hlut1 HEf1) as Hrel1.
-      set (E1 := sset (fmt_var c) (s_ncell stL) E) in *.
-      set (d := mkFdyn c ps ks body sc fl g k0 scout bc ctx (c + 1) c1 l 0%nat (length (SyltSem.clos st)) e (s_ncell stL) (s_nclo stL) E1) in *.
-      change (SimDefs.rel pv sv bound u fl (world_addD W d) sc e (s_newclos st (SyltSem.mkClos ps body e)) E1 (lua_def_state stL E1 ps (fbody u d))) in Hrel1.
-      assert (Hbb : bb = fbody u d) by (unfold fbody; cbn [d fd_lut fd_code]; apply (Emits_block_fun' u l bc bb l1 Hemb)).
-      rewrite <- Hbb in Hrel1.
-      assert (Hlc : alut_get l c = None) by (apply Hlut; left; lia).
-      assert (Hwf : wfenv E stL) by apply (r_wf _ _ _ _ _ _ _ _ _ _ _ Hrel).
-      eexists _, _. split; [apply cshape_fun; [exact Hsb | exact Hlc]|].
-      split; [lia|]. split; [lia|].
-      assert (Hfs1 : fscope fl W e E1) by (eapply fscope_keep; [apply (rel_fscope _ _ _ _ _ _ Hrel) | eapply keep_temp; [exact Hrel | exact Hbc]]).
-      exists (world_addD W d), E1, (lua_def_state stL E1 ps bb), (c :: F). split; [apply wsub_addD|].
-      split; [|split; [exact Hrel1|]].
-      * split; [apply ExecS_one; apply Exec_localfun|]. split; [|split; [eapply rel_down; [exact Hrel1 | apply wsub_addD | exact Hfs1]|split]].
-        -- constructor.
-           ++ intros t0 p0 Hb0 Hp0. unfold E1. rewrite sget_sset_var; [exact Hp0|]. intros ->. rewrite (HEf c) in Hp0 by lia. discriminate.
-           ++ intros x p0 Hx. unfold E1 in Hx. destruct (String.eqb_spec x (fmt_var c)) as [->|Hne].
-              ** right. left. exists c. split; [reflexivity | lia].
-              ** left. rewrite sget_sset_other in Hx by exact Hne. exact Hx.
-           ++ intros t0 p0 Hb0 _ Hp0. apply lua_def_old. eapply wf_alloc; eassumption.
-           ++ unfold lua_def_state, set_cell, alloc_closure, alloc_cell. cbn [snd s_ncell]. lia.
-        -- split; [apply incl_tl, incl_refl|]. intros t' [<-|Ht']; [right; lia | left; exact Ht'].
-        -- eapply keep_temp; [exact Hrel | exact Hbc].
-      * cbn [adenotes]. exists d. split; [right; reflexivity|]. split; [reflexivity|]. split; [reflexivity|].
-        unfold aexpand. rewrite Hfr1 by lia. rewrite Hlc.
-        eapply ldenotes_local; [left; reflexivity | unfold E1; apply sget_sset_same |].
-        unfold lua_def_state. apply get_cell_set_same.
+    exact (IHF W g k a _ ctx c code_a va c1 e st r st1 sc l E stL F Hev Hlow Hf Hu Hcva Hctx Hrel Hint).
 Qed.
 
 Lemma adenotes_step W K sc e st F1 F2 c0 c1 E1 stL1 b E2 stL2 ex av :
@@ -182,10 +141,10 @@ Proof.
 Qed.
 
 (* ---- the arguments of a call ---- *)
-Lemma args_sim n g : (forall W, P_eval pv sv bound u fl W n) ->
+Lemma args_sim n g : (forall W, P_eval pv sv bound u fl W n) -> (forall W, P_farg pv sv bound u fl W n) ->
   forall ks W args k ctx c rs c' cend e st ra st' sc l E stL F,
     SyltSem.mapM (SyltSem.eval n e) args st = (ra, st') ->
-    mapM (fun a => expression (S g) a ctx) args c = Ok (rs, c') ->
+    mapM (fun a => expression g a ctx) args c = Ok (rs, c') ->
     Forall2 (arg_frag k sc) ks args ->
     ucovers u (concat (map fst rs)) -> (forall r, In r rs -> 1 <= count_of u (snd r)) ->
     c' <= cend -> ctx_ok l F E c cend -> rel pv sv bound u fl W sc e st E stL -> interesting ra ->
@@ -198,7 +157,7 @@ Lemma args_sim n g : (forall W, P_eval pv sv bound u fl W n) ->
       | _ => exit_post pv sv bound u fl W ctx sc e c c' E stL b ra st'
       end.
 Proof.
-  intros IH. induction ks as [|K ks IHa]; intros W args k ctx c rs c' cend e st ra st' sc l E stL F Hev Hm Hf Hu Hcnt Hce Hctx Hrel Hint.
+  intros IH IHF. induction ks as [|K ks IHa]; intros W args k ctx c rs c' cend e st ra st' sc l E stL F Hev Hm Hf Hu Hcnt Hce Hctx Hrel Hint.
   - inversion Hf; subst. destruct (mapM_nil_ok _ _ _ _ Hm) as [-> ->]. cbn in Hev. inversion Hev; subst ra st'.
     eexists _, _. split; [apply cshape_nil|]. exists W, E, stL, F.
     split; [apply wsub_refl|]. split; [apply okstep_refl; exact Hrel|]. split; [exact Hrel|]. split; [exact Hctx | constructor].
@@ -210,17 +169,17 @@ Proof.
     assert (Hoks : Forall (arg_ok pv sv bound fl k sc) args').
     { clear - Hfs. induction Hfs; constructor; [eapply arg_frag_ok; eassumption | assumption]. }
     assert (HLr : forall l0, exists b2 l2, cshape u l0 (concat (map fst ys)) b2 l2 c1 c')
-      by (intros l0; destruct (L_args pv sv bound u fl g (L_expr_all pv sv bound u fl (S g)) (fun fl' => L_fb_all pv sv bound u fl' g) args' k ctx c1 ys c' sc l0 Hys Hoks) as (b2 & l2 & H2 & _); eauto).
+      by (intros l0; destruct (L_args pv sv bound u fl g (L_expr_all pv sv bound u fl g) (L_fexpr_all pv sv bound u fl g) args' k ctx c1 ys c' sc l0 Hys Hoks) as (b2 & l2 & H2 & _); eauto).
     destruct (HLr l) as (_ & _ & (_ & Hc1c' & _)).
     assert (Hcc1 : c <= c1).
-    { destruct (L_args pv sv bound u fl g (L_expr_all pv sv bound u fl (S g)) (fun fl' => L_fb_all pv sv bound u fl' g) [a] k ctx c [(code_a, va)] c1 sc l) as (_ & _ & (_ & H & _) & _); [|constructor; [eapply arg_frag_ok; eassumption | constructor]|exact H].
+    { destruct (L_args pv sv bound u fl g (L_expr_all pv sv bound u fl g) (L_fexpr_all pv sv bound u fl g) [a] k ctx c [(code_a, va)] c1 sc l) as (_ & _ & (_ & H & _) & _); [|constructor; [eapply arg_frag_ok; eassumption | constructor]|exact H].
       cbn [mapM]. unfold IR.bind, IR.ret. rewrite Hy. reflexivity. }
     assert (Hctxa : ctx_ok l F E c c1) by (eapply ctx_sub; [exact Hctx | lia | lia]).
     cbn [SyltSem.mapM] in Hev. unfold SyltSem.bind at 1 in Hev.
     destruct (SyltSem.eval n e a st) as [ry st1] eqn:Hy1.
     assert (Hinty : interesting ry).
     { destruct ry as [y|o|cc]; [exact I | |]; inversion Hev; subst; exact Hint. }
-    destruct (arg_sim n g IH W K a k ctx c code_a va c1 e st ry st1 sc l E stL F Hfa Hy1 Hy Hua Hcva Hctxa Hrel Hinty)
+    destruct (arg_sim n g IH IHF W K a k ctx c code_a va c1 e st ry st1 sc l E stL F Hfa Hy1 Hy Hua Hcva Hctxa Hrel Hinty)
       as (b1 & l1 & Hs1 & Hva1 & Hva2 & Hp1).
     destruct ry as [y|o|cc].
     2,3: (inversion Hev; subst ra st'; destruct (HLr l1) as (b2 & l2 & Hs2);
@@ -251,18 +210,28 @@ Proof.
 Qed.
 
 (* ---- the call ---- *)
-Lemma P_ecall_succ W n :
-  (forall W', P_eval pv sv bound u fl W' n) -> (forall W', P_apply pv sv bound u fl W' n) ->
-  P_ecall pv sv bound u fl W (S n).
+Lemma call_sim W n :
+  (forall W', P_eval pv sv bound u fl W' n) -> (forall W', P_farg pv sv bound u fl W' n) -> (forall W', P_apply pv sv bound u fl W' n) ->
+  forall g k var sp0 args sp ctx c code v c' e st r st' sc l E stL F ks rk,
+    SyltSem.eval (S n) e (Resolved.ECall (ERead var sp0) args sp) st = (r, st') ->
+    expression g (Resolved.ECall (ERead var sp0) args sp) ctx c = Ok ((code, v), c') ->
+    fun_kind fl var = Some (KF ks rk) -> frag_args pv sv bound fl k sc ks args = true ->
+    ucovers u code -> ctx_ok l F E c c' ->
+    rel pv sv bound u fl W sc e st E stL -> interesting r ->
+    exists b l', cshape u l code b l' c c' /\ c <= v /\ v < c' /\
+      match r with
+      | SyltSem.RVal y =>
+          exists W1 E' stL' F', wsub W W1 /\ okstep pv sv bound u fl W sc e st' F c c' E stL b E' stL' F' /\
+                                 rel pv sv bound u fl W1 sc e st' E' stL' /\ adenotes W1 rk F' E' stL' (aexpand l' v) y
+      | _ => exit_post pv sv bound u fl W ctx sc e c c' E stL b r st'
+      end.
 Proof.
-  intros IH IHap g k var sp0 args sp ctx c code v c' e st r st' sc l E stL F Hnpv Hev Hlow Hfrag Hu Hctx Hrel Hint.
-  destruct g as [|g]; [discriminate|]. destruct k as [|k]; [discriminate|].
-  rewrite frag_expr_call in Hfrag. destruct (N.eqb_spec var pv) as [->|_]; [contradiction|].
-  destruct (fun_kind fl var) as [Kf|] eqn:Har; [|discriminate Hfrag].
-  destruct Kf as [|ks [|? ?]]; try discriminate Hfrag.
+  intros IH IHF IHap g k var sp0 args sp ctx c code v c' e st r st' sc l E stL F ks rk Hev Hlow Har Hfrag Hu Hctx Hrel Hint.
+  destruct g as [|g]; [discriminate|].
   apply fun_kind_in in Har.
   destruct (r_fund _ _ _ _ _ _ _ _ _ _ _ var _ Hrel Har) as (cf & pf & d & Hlkf & Hnthf & Hpf & Hcellf & Hd & Hdk).
-  assert (Hpk : fd_pk d = ks) by (unfold dkind in Hdk; inversion Hdk; reflexivity). subst ks.
+  assert (Hpk : fd_pk d = ks) by (unfold dkind in Hdk; inversion Hdk; reflexivity).
+  assert (Hrk : fd_rk d = rk) by (unfold dkind in Hdk; inversion Hdk; reflexivity). subst ks rk.
   assert (Hvarb : var < bound).
   { destruct (r_flb _ _ _ _ _ _ _ _ _ _ _ Hrel var); [|assumption]. unfold fnames. apply in_map_iff. eexists. split; [|exact Har]. reflexivity. }
   pose proof (frag_args_inv k sc _ args Hfrag) as Hfr.
@@ -284,7 +253,7 @@ Proof.
   (* structure and usage counts *)
   assert (Hoks : Forall (arg_ok pv sv bound fl k sc) args).
   { clear - Hfr. induction Hfr; constructor; [eapply arg_frag_ok; eassumption | assumption]. }
-  destruct (L_args pv sv bound u fl g' (L_expr_all pv sv bound u fl (S g')) (fun fl' => L_fb_all pv sv bound u fl' g') args k ctx (c + 1) rs ca sc l Hm0 Hoks)
+  destruct (L_args pv sv bound u fl (S g') (L_expr_all pv sv bound u fl (S g')) (L_fexpr_all pv sv bound u fl (S g')) args k ctx (c + 1) rs ca sc l Hm0 Hoks)
     as (_ & _ & (_ & Hca & _) & Hrsr).
   apply ucovers_cons in Hu as [_ Hu]. apply ucovers_app in Hu as [Hua Huc].
   assert (Hcc : 1 <= count_of u c) by (eapply Huc; [left; reflexivity | cbn [ir_uses]; left; reflexivity]).
@@ -298,7 +267,7 @@ Proof.
   assert (Hctx1 : ctx_ok l F1 E1 (c + 1) (ca + 1)) by (eapply (ctx_after pv sv bound u fl W sc e st l F E stL c (c + 1) (ca + 1)); [exact Hctx | exact Hs0 | exact Hok1]).
   pose proof Hok1 as (Hx1 & _ & Hrel1 & _).
   (* the arguments *)
-  destruct (args_sim (S n') g' IH (fd_pk d) W args k ctx (c + 1) rs ca (ca + 1) e st ra st1 sc l E1 stL1 F1 Hy Hm0 Hfr Hua Hcnt ltac:(lia) Hctx1 Hrel1 Hia)
+  destruct (args_sim (S n') (S g') IH IHF (fd_pk d) W args k ctx (c + 1) rs ca (ca + 1) e st ra st1 sc l E1 stL1 F1 Hy Hm0 Hfr Hua Hcnt ltac:(lia) Hctx1 Hrel1 Hia)
     as (b_a & l1 & Hsa & Hpa).
   assert (Hs01 : cshape u l (ICopy c var :: concat (map fst rs)) (fst (agen_one u l (ICopy c var)) ++ b_a) l1 c ca)
     by (eapply cshape_cons; eassumption).
@@ -323,18 +292,116 @@ Proof.
     pose proof (step_call_fun pv sv bound u fl W2 (S n') ctx sc e st1 F2 ca (ca + 1) E2 stL2 l1 ca c (map snd rs) avs d r st'
                   (IHap W2) Hrel2 Hctx2 ltac:(lia) Hd2 Hdf2 Hds Hev Hint) as Hcall.
     assert (Hfs2 : fscope fl W e E2) by (destruct Hok12 as (_ & _ & Hr & _); apply (rel_fscope _ _ _ _ _ _ Hr)).
-    destruct r as [rv|o|cc]; cbn [eval_post].
-    + destruct Hcall as (E3 & stL3 & F3 & Hok3 & Hd3).
-      exists E3, stL3, F3. split; [|intros _; exact Hd3].
+    destruct r as [rv|o|cc].
+    + destruct Hcall as (W3 & E3 & stL3 & F3 & Hw3 & Hok3 & Hd3).
+      assert (Hw03 : wsub W W3) by (eapply wsub_trans; eassumption).
+      exists W3, E3, stL3, F3. split; [exact Hw03|]. split; [|split; [apply Hok3 | exact Hd3]].
       eapply (okstep_trans pv sv bound u fl W); [exact Hok12 | eapply okstep_down; eassumption | lia | lia].
     + eapply (okstep_exit pv sv bound u fl W); [exact Hok12 | exact Hrel | eapply exit_post_down; eassumption | lia | lia].
     + eapply (okstep_exit pv sv bound u fl W); [exact Hok12 | exact Hrel | eapply exit_post_down; eassumption | lia | lia].
-  - inversion Hev; subst r st'. clear Hev. cbn [eval_post] in *.
+  - inversion Hev; subst r st'. clear Hev.
     eapply (exit_app pv sv bound u fl W ctx sc e c ca (ca + 1)); [|lia].
     eapply (okstep_exit pv sv bound u fl W ctx sc e st st F F1 c (c + 1) ca); [exact Hok1 | exact Hrel | exact Hpa | lia | exact Hca].
-  - inversion Hev; subst r st'. clear Hev. cbn [eval_post] in *.
+  - inversion Hev; subst r st'. clear Hev.
     eapply (exit_app pv sv bound u fl W ctx sc e c ca (ca + 1)); [|lia].
     eapply (okstep_exit pv sv bound u fl W ctx sc e st st F F1 c (c + 1) ca); [exact Hok1 | exact Hrel | exact Hpa | lia | exact Hca].
+Qed.
+
+(* a call whose result is plain *)
+Lemma P_ecall_succ W n :
+  (forall W', P_eval pv sv bound u fl W' n) -> (forall W', P_farg pv sv bound u fl W' n) -> (forall W', P_apply pv sv bound u fl W' n) ->
+  P_ecall pv sv bound u fl W (S n).
+Proof.
+  intros IH IHF IHap g k var sp0 args sp ctx c code v c' e st r st' sc l E stL F Hnpv Hev Hlow Hfrag Hu Hctx Hrel Hint.
+  destruct k as [|k]; [discriminate|].
+  rewrite frag_expr_call in Hfrag. destruct (N.eqb_spec var pv) as [->|_]; [contradiction|].
+  destruct (fun_kind fl var) as [Kf|] eqn:Har; [|discriminate Hfrag].
+  destruct Kf as [|ks [|? ?]]; try discriminate Hfrag.
+  destruct (call_sim W n IH IHF IHap g k var sp0 args sp ctx c code v c' e st r st' sc l E stL F ks KP Hev Hlow Har Hfrag Hu Hctx Hrel Hint)
+    as (b & l' & Hs & H1 & H2 & Hp).
+  exists b, l'. split; [exact Hs|]. split; [exact H1|]. split; [exact H2|].
+  destruct r as [y|o|cc]; cbn [eval_post]; [|exact Hp | exact Hp].
+  destruct Hp as (W1 & E' & stL' & F' & _ & Hok & _ & Hd). exists E', stL', F'. split; [exact Hok | intros _; exact Hd].
+Qed.
+
+(* ---- function-valued expressions ---- *)
+Lemma P_farg_zero W : P_farg pv sv bound u fl W O.
+Proof.
+  intros g k x K ctx c code v c' e st r st' sc l E stL F Hev. cbn in Hev. inversion Hev; subst. intros. contradiction.
+Qed.
+
+Lemma P_farg_succ W n :
+  (forall W', P_eval pv sv bound u fl W' n) -> (forall W', P_farg pv sv bound u fl W' n) -> (forall W', P_apply pv sv bound u fl W' n) ->
+  P_farg pv sv bound u fl W (S n).
+Proof.
+  intros IH IHF IHap g k a K ctx c code_a va c1 e st r st1 sc l E stL F Hev Hlow Hf Hu Hcva Hctx Hrel Hint.
+  destruct k as [|k0]; [discriminate Hf|].
+  destruct a; try discriminate Hf.
+  - (* the name of a function *)
+    cbn [frag_fexpr] in Hf.
+    destruct (fun_kind fl var) as [Kf|] eqn:Hfk; [|discriminate Hf]. destruct Kf; [discriminate Hf|]. inversion Hf; subst. clear Hf.
+    apply fun_kind_in in Hfk.
+    destruct (r_fund _ _ _ _ _ _ _ _ _ _ _ var _ Hrel Hfk) as (cf & pf & d & Hlkf & Hnthf & Hpf & Hcellf & Hd & Hdk).
+    assert (Hvarb : var < bound).
+    { destruct (r_flb _ _ _ _ _ _ _ _ _ _ _ Hrel var); [|assumption]. unfold fnames. apply in_map_iff. eexists. split; [|exact Hfk]. reflexivity. }
+    destruct g as [|g]; [discriminate Hlow|].
+    cbn [expression] in Hlow. mon Hlow. fresh_all. inj_code.
+    cbn [SyltSem.eval] in Hev. rewrite Hlkf in Hev. unfold SyltSem.read_cell in Hev. rewrite Hnthf in Hev. inversion Hev; subst r st1. clear Hev.
+    destruct (step_copy_fun pv sv bound u fl W sc e st F c (c + 1) E stL l c var pf (fd_fid d) Hrel Hctx ltac:(lia) Hcva Hvarb Hpf Hcellf) as (E1 & stL1 & F1 & Hok1 & Hdf).
+    eexists _, _. split; [apply cshape_plain; [lia | reflexivity | reflexivity | apply used_plain]|].
+    split; [lia|]. split; [lia|].
+    exists W, E1, stL1, F1. split; [apply wsub_refl|]. split; [exact Hok1|]. split; [apply Hok1|]. cbn [adenotes]. exists d. auto.
+  - (* a call that returns a function *)
+    destruct a; try discriminate Hf.
+    rewrite frag_fexpr_call in Hf. destruct (N.eqb_spec var pv) as [->|_]; [discriminate Hf|].
+    destruct (fun_kind fl var) as [Kf|] eqn:Har; [|discriminate Hf].
+    destruct Kf as [|ks [|ka kr]]; try discriminate Hf.
+    destruct (frag_args pv sv bound fl k0 sc ks args) eqn:Hfa; [|discriminate Hf]. inversion Hf; subst K. clear Hf.
+    exact (call_sim W n IH IHF IHap g k0 var _ args _ ctx c code_a va c1 e st r st1 sc l E stL F ks (KF ka kr) Hev Hlow Har Hfa Hu Hctx Hrel Hint).
+  - (* a lambda *)
+    cbn [frag_fexpr] in Hf.
+    match type of Hf with (if ?b then _ else _) = _ => destruct b eqn:Hc; [|discriminate Hf] end.
+    inversion Hf; subst. clear Hf.
+    apply andb_prop in Hc as [Hpok Hfb].
+    set (ps := param_ids params) in *. set (ks := param_kinds params) in *. set (rk := kind_of_ty ret) in *.
+    assert (Hlks : length ks = length ps) by (unfold ks, ps, param_kinds, param_ids; rewrite !map_length; reflexivity).
+    destruct g as [|g]; [discriminate Hlow|].
+    cbn [expression] in Hlow. fold ps in Hlow. mon Hlow. fresh_all. inj_code. rename a0 into bc.
+    cbn [SyltSem.eval] in Hev. fold (param_ids params) in Hev. fold ps in Hev. cbn in Hev. inversion Hev; subst r st1. clear Hev.
+    pose proof Hctx as [Hbc Hlut HFo HEf].
+    apply ucovers_cons in Hu as [_ Hu]. apply ucovers_app in Hu as [Hubc _].
+    destruct (L_fb_all pv sv bound u _ g k0 body rk ctx (c + 1) bc c1 _ l Hm0 Hfb) as (bb & l1 & Hsb).
+    pose proof Hsb as (Hemb & Hcc1 & Hfr1 & Hnlb).
+    assert (Hlut1 : lut_ok bound l (c + 1) c1) by (eapply lut_ok_sub; [exact Hlut | lia | lia]).
+    assert (HEf1 : E_free E (c + 1) c1) by (eapply E_free_sub; [exact HEf | lia | lia]).
+    pose proof (rel_define_lambda pv sv bound u fl W sc e st E stL c ps ks rk body g k0 bc ctx (c + 1) c1 l
+                  Hrel Hpok Hlks Hfb Hm0 Hubc Hbc ltac:(lia) Hlut1 HEf1) as Hrel1.
+    set (E1 := sset (fmt_var c) (s_ncell stL) E) in *.
+    set (d := mkFdyn c ps ks rk body sc fl g k0 bc ctx (c + 1) c1 l 0%nat (length (SyltSem.clos st)) e (s_ncell stL) (s_nclo stL) E1) in *.
+    change (SimDefs.rel pv sv bound u fl (world_addD W d) sc e (s_newclos st (SyltSem.mkClos ps body e)) E1 (lua_def_state stL E1 ps (fbody u d))) in Hrel1.
+    assert (Hbb : bb = fbody u d) by (unfold fbody; cbn [d fd_lut fd_code]; apply (Emits_block_fun' u l bc bb l1 Hemb)).
+    rewrite <- Hbb in Hrel1.
+    assert (Hlc : alut_get l c = None) by (apply Hlut; left; lia).
+    assert (Hwf : wfenv E stL) by apply (r_wf _ _ _ _ _ _ _ _ _ _ _ Hrel).
+    eexists _, _. split; [apply cshape_fun; [exact Hsb | exact Hlc]|].
+    split; [lia|]. split; [lia|].
+    assert (Hfs1 : fscope fl W e E1) by (eapply fscope_keep; [apply (rel_fscope _ _ _ _ _ _ Hrel) | eapply keep_temp; [exact Hrel | exact Hbc]]).
+    exists (world_addD W d), E1, (lua_def_state stL E1 ps bb), (c :: F). split; [apply wsub_addD|].
+    split; [|split; [exact Hrel1|]].
+    * split; [apply ExecS_one; apply Exec_localfun|]. split; [|split; [eapply rel_down; [exact Hrel1 | apply wsub_addD | exact Hfs1]|split]].
+      -- constructor.
+         ++ intros t0 p0 Hb0 Hp0. unfold E1. rewrite sget_sset_var; [exact Hp0|]. intros ->. rewrite (HEf c) in Hp0 by lia. discriminate.
+         ++ intros x p0 Hx. unfold E1 in Hx. destruct (String.eqb_spec x (fmt_var c)) as [->|Hne].
+            ** right. left. exists c. split; [reflexivity | lia].
+            ** left. rewrite sget_sset_other in Hx by exact Hne. exact Hx.
+         ++ intros t0 p0 Hb0 _ Hp0. apply lua_def_old. eapply wf_alloc; eassumption.
+         ++ unfold lua_def_state, set_cell, alloc_closure, alloc_cell. cbn [snd s_ncell]. lia.
+      -- split; [apply incl_tl, incl_refl|]. intros t' [<-|Ht']; [right; lia | left; exact Ht'].
+      -- eapply keep_temp; [exact Hrel | exact Hbc].
+    * cbn [adenotes]. exists d. split; [right; reflexivity|]. split; [reflexivity|]. split; [reflexivity|].
+      unfold aexpand. rewrite Hfr1 by lia. rewrite Hlc.
+      eapply ldenotes_local; [left; reflexivity | unfold E1; apply sget_sset_same |].
+      unfold lua_def_state. apply get_cell_set_same.
 Qed.
 
 End Ecall.
